@@ -62,6 +62,22 @@ def _nest_locks(tree):
     return True
 
 
+DTYPE = 'beartype/_decor/_type/decortype.py'
+
+
+def _mark_first(tree):
+    fn = find_def(tree, 'beartype_type')
+    if fn is None:
+        return False
+    idx = [i for i, s in enumerate(fn.body) if isinstance(s, ast.Expr) and 'set_type_attr_cached' in ast.unparse(s)]
+    loop = [i for i, s in enumerate(fn.body) if isinstance(s, ast.For)]
+    if not idx or not loop or idx[-1] < loop[0]:
+        return False
+    st = fn.body.pop(idx[-1])
+    fn.body.insert(loop[0], st)
+    return True
+
+
 VARIANTS = {
     # ---- R1 / R2 --------------------------------------------------------------------------------
     'unbounded-cache-lookup-outside-lock': tseeded(UNB, lambda t: _hoist_lookup(t), 'C15.R2',
@@ -81,6 +97,11 @@ VARIANTS = {
     'second-global-patch': tseeded(LOADER, lambda t: replace_where(
         t, src_is('self._module_name = fullname'), lambda n: [n] + stmts('import sys\nsys.dont_write_bytecode = True'),
         scope='BeartypeSourceFileLoader.get_code'), 'C15.R5'),
+    # ---- R6 / R7 -----------------------------------------------------------------------------------------------------
+    'repr-assembled-in-the-shared-attribute': tseeded(CONF, lambda t: replace_where(
+        t, lambda n: isinstance(n, ast.Assign) and ast.unparse(n.targets[0]) == 'self._repr',
+        lambda n: stmts("self._repr = ''\nself._repr += 'BeartypeConf('"), scope='BeartypeConf.__repr__'), 'C15.R6', 'seeded C15-23'),
+    'class-marked-before-its-members-are-decorated': tseeded(DTYPE, lambda t: _mark_first(t), 'C15.R7', 'seeded C15-22'),
     # ---- neutral ----------------------------------------------------------------------------------------
     'n-roundtrip-unbounded': roundtrip(UNB),
     'n-roundtrip-pool': roundtrip(POOL),
